@@ -32,6 +32,7 @@ EXPLANATION = (
     'Decides these structural clauses, not denotation equality of arbitrary graphs.')
 LEVEL_NOTE = 'necessary conditions only; graph denotation for arbitrary programs is not decided'
 LEVEL_TEXT_ADD = ' Also: constants table discipline (C01.const; signed zero is a known finding) and idempotent per-input edge updates in dead-code elimination.'
+LEVEL_TEXT_ADD += ' Rounds e-f: a unit is removed only on a rewrite path and is never read by its replacement; dead-code elimination visits an input once.'
 LEVEL_TEXT = (globals().get('LEVEL_TEXT') or EXPLANATION) + LEVEL_TEXT_ADD
 
 REFS = os.path.join(os.path.dirname(os.path.dirname(__file__)), 'refs')
